@@ -403,24 +403,28 @@ fn long_shard(ifaces: &[&'static IfaceDesc], k: usize) -> Acc {
     let (name, input) = &inputs[k];
     acc.distinct.insert(fnv(input));
     acc.max_len = input.len();
+    // the CPU-time watchdog is armed per execution (one `run` or `process` call over the whole
+    // input), not per input: the inputs are long and there are many configurations
     for iface in ifaces.iter().take(3) {
-        par::case_begin(input, [k as u64, 0, 0, 0]);
         for w in [WriterKind::Rec(None), WriterKind::Rec(Some(7)), WriterKind::Heapless(0), WriterKind::Heapless(16), WriterKind::Heapless(4096)] {
             for pend in [0u64, 77] {
+                par::case_begin(input, [k as u64, 0, 0, 0]);
                 let out = (iface.run)(&RunSpec { inputs: &[input], writer: w, pend_seed: pend });
+                par::case_end();
                 *acc.by_kind.entry(format!("long/{}", name)).or_default() += 1;
                 judge(&mut acc, iface, &[input], cfg_desc("run", Some(w), 0, &[], pend), &out);
             }
         }
         for n in (iface.ns)() {
             for chunks in [vec![], vec![1usize; input.len()], vec![usize::MAX; 8], vec![7usize; input.len() / 7 + 1]] {
+                par::case_begin(input, [k as u64, n as u64, chunks.len() as u64, 0]);
                 let out = (iface.process)(&ProcSpec { stream: input, n, chunks: &chunks, pend_seed: 0, fault_at: None });
+                par::case_end();
                 acc.ns.insert(n);
                 *acc.by_kind.entry(format!("long/{}", name)).or_default() += 1;
                 judge(&mut acc, iface, &[input], cfg_desc("process", None, n, &chunks[..chunks.len().min(4)], 0), &out);
             }
         }
-        par::case_end();
     }
     acc
 }
